@@ -603,13 +603,60 @@ def check_proto(ctx, repo, rule):
     g = repo.func(BSPLINE, 'bspline.fit')
     ga = FA(g)
     ctx.cover(g)
-    tests = [n for n in walk_local(g.node) if isinstance(n, ast.If) and 'errb[0]' in src(n.test)]
-    ok = len(tests) == 1 and '== -1' in src(tests[0].test) and 'isinstance(errb[0], int)' in src(tests[0].test)
-    ctx.check(rule, ok, g, tests[0] if tests else g.node, 'fit distinguishes success exactly by `isinstance(errb[0], int) and errb[0] == -1`',
+    # by role: E = the result of cholesky_band, S = its first element, P = `isinstance(S, int) and S == -1` (in canonical form, names
+    # that stand for it expanded).  Under P fit solves and returns status 0; under not P the status is maskpoints(S).
+    from ..astutil import path_conditions, clone
+    from ..normal import canon_test, canon_key
+    from ..fn import expand
+    cb = [st for st in walk_local(g.node) if isinstance(st, ast.Assign) and isinstance(st.value, ast.Call) and call_name(st.value) == 'cholesky_band']
+    ctx.need(len(cb) == 1 and len(cb[0].targets) == 1, 'fit: the call of cholesky_band not found')
+    tgt = cb[0].targets[0]
+    if isinstance(tgt, ast.Name):
+        S = '%s[0]' % tgt.id
+    elif isinstance(tgt, ast.Tuple) and tgt.elts and isinstance(tgt.elts[0], ast.Name):
+        S = tgt.elts[0].id
+    else:
+        raise AnalysisError('C09: fit: the result of cholesky_band is bound in a way this checker does not follow')
+    want = {canon_key(ast.parse('isinstance(%s, int)' % S, mode='eval').body), canon_key(ast.parse('%s == -1' % S, mode='eval').body)}
+
+    def polarity(node):
+        """+1 when node is only reached under P, -1 under not P, 0 otherwise."""
+        for t, pol in path_conditions(node):
+            e = canon_test(expand(t, ga, 4))
+            cj = {canon_key(x) for x in (e.values if isinstance(e, ast.BoolOp) and isinstance(e.op, ast.And) else [e])}
+            if cj == want:
+                return 1 if pol else -1
+            if pol and want <= cj:
+                return 1
+        return 0
+    solves = [c for c in walk_local(g.node) if isinstance(c, ast.Call) and call_name(c) == 'cholesky_solve']
+    ok = bool(solves) and all(polarity(c) == 1 for c in solves)
+    ctx.check(rule, ok, g, solves[0] if solves else g.node, 'fit distinguishes success exactly by `isinstance(%s, int) and %s == -1`: the solve runs only then' % (S, S),
               msg='fit no longer recognises success by the -1 status of cholesky_band', construct='fit success test')
     mp = [c for c in walk_local(g.node) if isinstance(c, ast.Call) and isinstance(c.func, ast.Attribute) and c.func.attr == 'maskpoints']
-    ctx.check(rule, len(mp) == 1 and src(mp[0].args[0]) == 'errb[0]' and tests and any(mp[0] in list(ast.walk(b)) for b in tests[0].orelse), g, mp[0] if mp else g.node,
-              'every non-success value flows into maskpoints(errb[0]) in the else branch', msg='the failure value of cholesky_band does not flow into maskpoints', construct='maskpoints call')
+    okm = len(mp) == 1 and len(mp[0].args) == 1 and src(expand(mp[0].args[0], ga, 3)).replace(' ', '') == S and polarity(mp[0]) == -1
+    # every return behind the factorisation: status 0 under P, maskpoints(S) under not P
+    okr = True
+    for r in walk_local(g.node):
+        if isinstance(r, ast.Return) and r.value is not None and getattr(r, 'lineno', 0) > cb[0].lineno:
+            v = r.value
+            pol = polarity(r)
+            if isinstance(v, ast.IfExp) and pol == 0:
+                e = canon_test(expand(v.test, ga, 4))
+                cj = {canon_key(x) for x in (e.values if isinstance(e, ast.BoolOp) and isinstance(e.op, ast.And) else [e])}
+                if cj != want:
+                    okr = False
+                continue
+            st0 = v.elts[0] if isinstance(v, ast.Tuple) and v.elts else None
+            if pol == 1:
+                okr = okr and st0 is not None and try_fold(st0) == 0
+            elif pol == -1:
+                okr = okr and st0 is not None and any(st0 is x or any(y is mp_ for y in ast.walk(st0)) for mp_ in mp for x in [st0])
+            else:
+                okr = False
+    ctx.check(rule, okm and okr, g, mp[0] if mp else g.node,
+              'every non-success value flows into maskpoints(%s), reached only when the success test fails; success returns status 0' % S,
+              msg='the failure value of cholesky_band does not flow into maskpoints', construct='maskpoints call')
     # maskpoints normalises an int before subscripting
     h = repo.func(BSPLINE, 'bspline.maskpoints')
     ha = FA(h)
